@@ -69,6 +69,17 @@ Proof.
     destruct E as [E1 E2]. apply le16_inj in E1; auto. subst. f_equal. apply IH; auto.
 Qed.
 
+Lemma NoDup_app_snoc {A} (l : list A) (x : A) : NoDup l -> ~ In x l -> NoDup (l ++ [x]).
+Proof.
+  induction l as [|y l IH]; intros Hn Hx; cbn.
+  - constructor; [intros []|constructor].
+  - inversion Hn; subst. constructor.
+    + intros Hin. apply in_app_or in Hin. destruct Hin as [Hin|[->|[]]]; [contradiction|]. apply Hx. left; reflexivity.
+    + apply IH; [assumption|]. intros Hin. apply Hx. right; exact Hin.
+Qed.
+Lemma nth_error_Some_lt {A} (l : list A) j x : nth_error l j = Some x -> (j < length l)%nat.
+Proof. intros H. apply nth_error_Some. congruence. Qed.
+
 Section Proofs.
 Variable Hf : bytes -> bytes.
 Variable ser_tx : tx -> bytes.
@@ -229,7 +240,8 @@ Lemma append_inr bm m b0 bm' m' :
     /\ h_height (b_hdr b) = m_height m + 1 /\ h_prev (b_hdr b) = m_tip m /\ tx_root_ok b = true
     /\ b_txs b = b_txs b0 /\ b_sigs b = b_sigs b0 /\ h_ts (b_hdr b) = h_ts (b_hdr b0)
     /\ (f_append_ts fl = true -> forall t, aget bm (m_height m) = Some t -> h_ts (b_hdr t) <= h_ts (b_hdr b))
-    /\ (f_append_sig_all fl = true \/ f_sig_min_height fl < m_height m + 1 -> verify_sig (b_hdr b) = 0).
+    /\ (f_append_sig_all fl = true \/ f_sig_min_height fl < m_height m + 1 -> verify_sig (b_hdr b) = 0)
+    /\ (b_hdr b = b_hdr b0 \/ b_hdr b = set_txroot (compute_tx_root (b_txs b0)) (b_hdr b0)).
 Proof.
   unfold Model.append.
   destruct (N.eqb_spec (h_height (b_hdr b0)) (m_height m + 1)) as [Eh|Eh]; cbn [negb]; [|discriminate].
@@ -247,6 +259,7 @@ Proof.
   destruct (N.eqb (if f_append_sig_all fl || N.ltb (f_sig_min_height fl) (m_height m + 1) then verify_sig (b_hdr b) else 0) 0) eqn:Esg;
     cbn [negb]; [|discriminate].
   intros E. injection E as <- <-. exists b. repeat split; try congruence.
+  3:{ subst b. destruct (bytes_eqb (h_txroot (b_hdr b0)) zeros32 && negb (is_nil (b_txs b0))); cbn; auto. }
   - intros Hts t Et. rewrite Hts, Et in Ets. cbn [andb] in Ets. apply N.ltb_ge in Ets. rewrite Hb5. exact Ets.
   - intros Hg. apply N.eqb_eq in Esg.
     destruct Hg as [Hg|Hg].
@@ -265,7 +278,7 @@ Lemma append_preserves bm m b0 bm' m' :
   Inv bm' m'.
 Proof.
   intros (HL & (t & Et & Etip) & HH) Ha Gts Gsig.
-  destruct (append_inr _ _ _ _ _ Ha) as (b & -> & -> & Bh & Bp & Btr & Btx & Bsg & Bts & Bt & Bs).
+  destruct (append_inr _ _ _ _ _ Ha) as (b & -> & -> & Bh & Bp & Btr & Btx & Bsg & Bts & Bt & Bs & _).
   cbn [m_height m_tip].
   assert (Hget : forall k, k <= m_height m -> aget (aset bm (m_height m + 1) b) k = aget bm k).
   { intros k Hk. rewrite aget_aset. destruct (N.eqb_spec (m_height m + 1) k); [lia|reflexivity]. }
@@ -467,7 +480,7 @@ Lemma bytes_eq_dec : forall x y : bytes, {x = y} + {x <> y}.
 Proof. repeat decide equality. Defined.
 
 Lemma hash_pair_inj a b a' b' : length a = length a' -> Hf (a ++ b) = Hf (a' ++ b') -> (a = a' /\ b = b') \/ Collision.
-Proof.
+Proof using Type.
   intros L E. destruct (bytes_eq_dec (a ++ b) (a' ++ b')) as [Eq|Ne].
   - left. apply app_inj_len; assumption.
   - right. exists (a ++ b), (a' ++ b'). auto.
@@ -475,7 +488,8 @@ Qed.
 
 Lemma pair_up_inj : forall n l l', (length l <= n)%nat -> length l = length l' ->
   Forall len32 l -> Forall len32 l' -> pair_up l = pair_up l' -> l = l' \/ Collision.
-Proof.
+Proof using Type.
+  clear Hlen registered sig_valid sign SR fl ser_tx.
   induction n as [|n IH]; intros l l' Hn HL F F' E.
   - destruct l; [|cbn in Hn; lia]. destruct l'; [left; reflexivity|discriminate].
   - destruct l as [|a [|b r]]; destruct l' as [|a' [|b' r']]; try discriminate.
@@ -490,7 +504,8 @@ Proof.
 Qed.
 
 Lemma pair_up_len32 : forall n l, (length l <= n)%nat -> Forall len32 (pair_up l).
-Proof.
+Proof using Hlen.
+  clear registered sig_valid sign SR fl ser_tx.
   induction n as [|n IH]; intros l Hn.
   - destruct l; [constructor|cbn in Hn; lia].
   - destruct l as [|a [|b r]]; cbn [Model.pair_up].
@@ -500,7 +515,8 @@ Proof.
 Qed.
 
 Lemma pair_up_length : forall n l, (length l <= n)%nat -> length (pair_up l) = Nat.div2 (S (length l)).
-Proof.
+Proof using Type.
+  clear Hlen registered sig_valid sign SR fl ser_tx.
   induction n as [|n IH]; intros l Hn.
   - destruct l; [reflexivity|cbn in Hn; lia].
   - destruct l as [|a [|b r]]; cbn [Model.pair_up length]; try reflexivity.
@@ -514,7 +530,8 @@ Qed.
 
 Lemma merkle_fuel_inj : forall n l l', length l = length l' -> (length l <= n)%nat ->
   Forall len32 l -> Forall len32 l' -> merkle_fuel n l = merkle_fuel n l' -> l = l' \/ Collision.
-Proof.
+Proof using Hlen.
+  clear registered sig_valid sign SR fl ser_tx.
   induction n as [|n IH]; intros l l' HL Hn F F' E.
   - destruct l; [|cbn in Hn; lia]. destruct l'; [left; reflexivity|discriminate].
   - destruct l as [|a [|b r]]; destruct l' as [|a' [|b' r']]; try discriminate.
@@ -532,7 +549,8 @@ Qed.
 
 Lemma merkle_root_inj l l' : length l = length l' -> Forall len32 l -> Forall len32 l' ->
   merkle_root l = merkle_root l' -> l = l' \/ Collision.
-Proof.
+Proof using Hlen.
+  clear registered sig_valid sign SR fl ser_tx.
   intros HL F F' E. unfold Model.merkle_root in E. rewrite <- HL in E.
   apply (merkle_fuel_inj (length l)); auto.
 Qed.
@@ -676,4 +694,346 @@ Proof.
   apply verify_from_same_auth; assumption.
 Qed.
 
+
+(* ------------------------------------------------------------------ commit: all or nothing *)
+Notation commit_core := (commit_core Hf ser_tx registered sig_valid sign SR fl).
+Notation commit := (commit Hf ser_tx registered sig_valid sign SR fl).
+
+Lemma append_inl_nonzero bm m b0 e : append bm m b0 = inl e -> e <> 0.
+Proof.
+  unfold Model.append, E_HEIGHT, E_HASH, E_TS, E_TXROOT, E_UNSIGNED.
+  repeat match goal with
+         | |- context [if ?c then _ else _] => destruct c eqn:?
+         end; intros E; try discriminate; injection E as <-; try discriminate.
+  all: match goal with H : negb (N.eqb ?x 0) = true |- _ => destruct (N.eqb_spec x 0); [discriminate|assumption] end.
+Qed.
+
+Theorem commit_core_atomic me emb sto m ops ts sto' m' e :
+  commit_core me emb sto m ops ts = (sto', m', e) ->
+  (e = 0 /\ s_data sto' = apply_txs (s_data sto) ops /\ m_height m' = m_height m + 1 /\
+   s_meta sto' = Some (m_height m + 1) /\
+   exists blk, s_blocks sto' = aset (s_blocks sto) (m_height m + 1) blk /\ b_txs blk = ops)
+  \/ (e <> 0 /\ sto' = sto /\ m' = m).
+Proof.
+  unfold Model.commit_core.
+  destruct (append (s_blocks sto) m _) as [e0|[bm' m'']] eqn:Ea; intros E; injection E as <- <- <-.
+  - right. split; [eapply append_inl_nonzero; exact Ea|auto].
+  - left. destruct (append_inr _ _ _ _ _ Ea) as (b & -> & -> & _ & _ & _ & Btx & _).
+    cbn. repeat split; auto. exists b. split; [reflexivity|exact Btx].
+Qed.
+
+(* a workspace either becomes one new block with all its writes applied, or chain and store are untouched *)
+Theorem commit_all_or_nothing me emb maxtx s w ts s' e :
+  commit me emb maxtx s w ts = (s', e) ->
+  (e = 0 /\ exists x, aget (t_ws s) w = Some x /\
+     ((w_ops x = [] /\ t_store s' = t_store s /\ t_mem s' = t_mem s) \/
+      (w_ops x <> [] /\ s_data (t_store s') = apply_txs (s_data (t_store s)) (w_ops x) /\
+       m_height (t_mem s') = m_height (t_mem s) + 1 /\
+       exists blk, s_blocks (t_store s') = aset (s_blocks (t_store s)) (m_height (t_mem s) + 1) blk /\ b_txs blk = w_ops x)))
+  \/ (e <> 0 /\ t_store s' = t_store s /\ t_mem s' = t_mem s).
+Proof.
+  unfold Model.commit. destruct (aget (t_ws s) w) as [x|] eqn:Ex.
+  2:{ intros E; injection E as <- <-. right. repeat split; discriminate. }
+  destruct (N.eqb (w_state x) 0); cbn [negb].
+  2:{ intros E; injection E as <- <-. right. repeat split; discriminate. }
+  destruct (w_ops x) as [|o ops] eqn:Eops; cbn [is_nil].
+  { intros E; injection E as <- <-. left. split; [reflexivity|]. exists x. split; [reflexivity|]. left. rewrite Eops. auto. }
+  destruct (N.ltb maxtx (N.of_nat (length (o :: ops)))).
+  { intros E; injection E as <- <-. right. repeat split; discriminate. }
+  destruct (commit_core me emb (t_store s) (t_mem s) (o :: ops) ts) as [[sto' m'] e0] eqn:Ec.
+  intros E; injection E as <- <-. cbn [t_store t_mem].
+  destruct (commit_core_atomic _ _ _ _ _ _ _ _ _ Ec) as [(-> & Hd & Hh & _ & Hb)|(Hne & -> & ->)].
+  - left. split; [reflexivity|]. exists x. split; [reflexivity|]. right. rewrite Eops. split; [discriminate|auto].
+  - right. auto.
+Qed.
+
+Notation rollback := Model.rollback.
+(* rollback leaves chain and store untouched WHEN nothing was committed since the workspace began *)
+Theorem rollback_untouched s w s' x :
+  aget (t_ws s) w = Some x -> w_chk x = t_store s -> rollback s w = (s', 0) ->
+  t_store s' = t_store s /\ t_mem s' = t_mem s.
+Proof.
+  intros Ex Hc. unfold Model.rollback. rewrite Ex. destruct (N.eqb (w_state x) 2); intros E; injection E as <-; cbn; auto.
+Qed.
+
+
+(* ------------------------------------------------------------------ concurrent commits, serialised variant *)
+Section Serialised.
+Variable me emb : bytes.
+Hypothesis Hlocked : f_commit_locked fl = true.
+Hypothesis Hreg : registered me = true.
+Hypothesis Hsigok : forall m, sig_valid me m (sign me m) = true.
+Hypothesis Hsigne : forall m, sign me m <> [].
+Notation cstep := (cstep Hf ser_tx registered sig_valid sign SR fl me emb).
+Notation crun := (crun Hf ser_tx registered sig_valid sign SR fl me emb).
+Notation build_signed := (build_signed Hf ser_tx sign).
+
+Lemma set_txroot_same h : set_txroot (h_txroot h) h = h.
+Proof. destruct h; reflexivity. Qed.
+
+Lemma built_block_sig m ops root ts : verify_sig (b_hdr (build_signed m me ops root emb [] ts)) = 0.
+Proof.
+  apply verify_sig_ok. cbn. repeat split; first [apply Hsigne | exact Hreg | apply Hsigok].
+Qed.
+
+Definition tip_ts_le (bm : blockmap) (m : cmem) (lo : N) : Prop :=
+  forall t, aget bm (m_height m) = Some t -> h_ts (b_hdr t) <= lo.
+
+Lemma commit_core_inv sto m ops now sto' m' e :
+  Inv (s_blocks sto) m -> tip_ts_le (s_blocks sto) m now ->
+  commit_core me emb sto m ops now = (sto', m', e) ->
+  (e = 0 /\ Inv (s_blocks sto') m' /\ m_height m' = m_height m + 1 /\ tip_ts_le (s_blocks sto') m' now /\
+   exists blk, s_blocks sto' = aset (s_blocks sto) (m_height m + 1) blk /\ b_txs blk = ops)
+  \/ (e <> 0 /\ sto' = sto /\ m' = m).
+Proof.
+  intros HI Hts. unfold Model.commit_core.
+  set (blk := build_signed m me ops _ emb [] now).
+  destruct (append (s_blocks sto) m blk) as [e0|[bm' m'']] eqn:Ea; intros E; injection E as <- <- <-.
+  - right. split; [eapply append_inl_nonzero; exact Ea|auto].
+  - left. split; [reflexivity|].
+    destruct (append_inr _ _ _ _ _ Ea) as (b & Ebm & Em & _ & _ & _ & Btx & _ & Bts & _ & _ & Bshape).
+    assert (Hhdr : b_hdr b = b_hdr blk).
+    { destruct Bshape as [H|H]; [exact H|]. rewrite H. subst blk. cbn [Model.build_signed b_txs b_hdr].
+      unfold set_sig at 1. cbn. reflexivity. }
+    cbn [s_blocks]. split; [|split; [|split]].
+    + eapply append_preserves; [exact HI|exact Ea| |].
+      * right. intros t Et. subst blk. cbn. apply Hts. exact Et.
+      * right. right. intros b1 E1. subst bm'. rewrite aget_aset_eq in E1. injection E1 as <-.
+        rewrite Hhdr. apply built_block_sig.
+    + subst m''. reflexivity.
+    + intros t Et. subst m'' bm'. cbn [m_height] in Et. rewrite aget_aset_eq in Et. injection Et as <-.
+      rewrite Bts. subst blk. cbn. lia.
+    + exists b. subst bm'. split; [reflexivity|]. rewrite Btx. reflexivity.
+Qed.
+
+Definition fin_succ (s : cst) (i : N) : Prop :=
+  exists t, aget (c_thr s) i = Some t /\ th_pc t = 3 /\ th_res t = 0.
+
+(* commit log: thread ids in the order their blocks were appended *)
+Definition CI (h0 : N) (s : cst) : Prop :=
+  Inv (s_blocks (c_store s)) (c_mem s) /\
+  exists log, NoDup log /\ m_height (c_mem s) = h0 + N.of_nat (length log) /\
+    (forall j i, nth_error log j = Some i ->
+       exists t b, aget (c_thr s) i = Some t /\ aget (s_blocks (c_store s)) (h0 + 1 + N.of_nat j) = Some b /\ b_txs b = th_ops t) /\
+    (forall i, In i log <-> fin_succ s i).
+
+Fixpoint clock_mono (lo : N) (sched : list (N * N)) : Prop :=
+  match sched with [] => True | (_, now) :: r => lo <= now /\ clock_mono now r end.
+
+Lemma cstep_CI h0 s i now :
+  CI h0 s -> tip_ts_le (s_blocks (c_store s)) (c_mem s) now ->
+  CI h0 (cstep s (i, now)) /\ tip_ts_le (s_blocks (c_store (cstep s (i, now)))) (c_mem (cstep s (i, now))) now.
+Proof.
+  intros (HI & log & Hnd & Hh & Hblk & Hfin) Hts. unfold Model.cstep. rewrite Hlocked.
+  destruct (aget (c_thr s) i) as [t|] eqn:Et.
+  2:{ split; [|exact Hts]. split; [exact HI|]. exists log. auto. }
+  destruct (N.eqb_spec (th_pc t) 3) as [Epc|Epc].
+  { split; [|exact Hts]. split; [exact HI|]. exists log. auto. }
+  destruct (commit_core me emb (c_store s) (c_mem s) (th_ops t) now) as [[sto' m'] e] eqn:Ec.
+  cbn [c_store c_mem c_thr].
+  assert (Hother : forall k, k <> i ->
+            aget (aset (c_thr s) i (Th (th_ops t) 3 (th_snap t) None e)) k = aget (c_thr s) k).
+  { intros k Hk. apply aget_aset_ne. congruence. }
+  assert (Hnotin : ~ In i log).
+  { intros Hin. apply Hfin in Hin. destruct Hin as (t' & Et' & Epc' & _). rewrite Et in Et'. injection Et' as <-. contradiction. }
+  destruct (commit_core_inv _ _ _ _ _ _ _ HI Hts Ec) as [(-> & HI' & Hh' & Hts' & blk & Ebm & Etx)|(Hne & -> & ->)].
+  - split; [|exact Hts']. split; [exact HI'|]. exists (log ++ [i]). repeat split; cbn [c_store c_mem c_thr].
+    + apply NoDup_app_snoc; assumption.
+    + rewrite Hh', Hh, app_length. cbn. lia.
+    + intros j k Hj. destruct (Nat.lt_ge_cases j (length log)) as [Hlt|Hge].
+      * rewrite nth_error_app1 in Hj by exact Hlt.
+        destruct (Hblk j k Hj) as (tk & bk & Ek & Ebk & Etxk).
+        assert (k <> i) by (intros ->; apply Hnotin; eapply nth_error_In; exact Hj).
+        exists tk, bk. rewrite Hother by assumption. split; [exact Ek|]. split; [|exact Etxk].
+        rewrite Ebm. rewrite aget_aset_ne; [exact Ebk|]. rewrite Hh. apply nth_error_Some_lt in Hj. lia.
+      * rewrite nth_error_app2 in Hj by exact Hge.
+        destruct (j - length log)%nat as [|x] eqn:Ej; [|destruct x; discriminate].
+        cbn in Hj. injection Hj as <-.
+        exists (Th (th_ops t) 3 (th_snap t) None 0), blk. rewrite aget_aset_eq. split; [reflexivity|].
+        split; [|exact Etx]. rewrite Ebm. replace (h0 + 1 + N.of_nat j) with (m_height (c_mem s) + 1) by lia.
+        apply aget_aset_eq.
+    + intros Hin. apply in_app_or in Hin. destruct Hin as [Hin|[<-|[]]].
+      * assert (i0 <> i) by (intros ->; contradiction).
+        apply Hfin in Hin. destruct Hin as (t' & Et' & P1 & P2). exists t'. cbn [c_thr]. rewrite Hother by assumption. auto.
+      * exists (Th (th_ops t) 3 (th_snap t) None 0). cbn [c_thr]. rewrite aget_aset_eq. auto.
+    + intros (t' & Et' & P1 & P2). cbn [c_thr] in Et'. apply in_or_app.
+      destruct (N.eq_dec i0 i) as [->|Hne]; [right; left; reflexivity|].
+      left. apply Hfin. exists t'. rewrite Hother in Et' by assumption. auto.
+  - split; [|exact Hts]. split; [exact HI|]. exists log. repeat split; auto.
+    + intros j k Hj. destruct (Hblk j k Hj) as (tk & bk & Ek & Ebk & Etxk).
+      assert (k <> i) by (intros ->; apply Hnotin; eapply nth_error_In; exact Hj).
+      exists tk, bk. cbn [c_thr]. rewrite Hother by assumption. auto.
+    + intros Hin. assert (i0 <> i) by (intros ->; contradiction).
+      apply Hfin in Hin. destruct Hin as (t' & Et' & P1 & P2). exists t'. cbn [c_thr]. rewrite Hother by assumption. auto.
+    + intros (t' & Et' & P1 & P2). cbn [c_thr] in Et'.
+      destruct (N.eq_dec i0 i) as [->|Hne'].
+      * rewrite aget_aset_eq in Et'. injection Et' as <-. cbn in P2. contradiction.
+      * apply Hfin. exists t'. rewrite Hother in Et' by assumption. auto.
+Qed.
+
+Lemma tip_ts_le_mono bm m a b : tip_ts_le bm m a -> a <= b -> tip_ts_le bm m b.
+Proof. intros H L t Et. specialize (H t Et). lia. Qed.
+
+(* for EVERY schedule of the serialised commits (clock non-decreasing): the chain verifies and the blocks
+   above the initial height are exactly the successfully committed workspaces, each once, in commit order *)
+Theorem serialised_commits h0 : forall sched s lo,
+  CI h0 s -> tip_ts_le (s_blocks (c_store s)) (c_mem s) lo -> clock_mono lo sched ->
+  CI h0 (crun s sched).
+Proof.
+  induction sched as [|[i now] r IH]; intros s lo HC Hts Hm; [exact HC|].
+  cbn [clock_mono] in Hm. destruct Hm as [Hlo Hm].
+  unfold Model.crun. cbn [fold_left].
+  destruct (cstep_CI h0 s i now HC (tip_ts_le_mono _ _ _ _ Hts Hlo)) as [HC' Hts'].
+  apply (IH _ now); assumption.
+Qed.
+
+Corollary serialised_commits_verify h0 sched s lo :
+  CI h0 s -> tip_ts_le (s_blocks (c_store s)) (c_mem s) lo -> clock_mono lo sched ->
+  cverify Hf ser_tx registered sig_valid fl (crun s sched) = 0.
+Proof. intros HC Hts Hm. apply Inv_verify. apply (serialised_commits h0 sched s lo HC Hts Hm). Qed.
+
+End Serialised.
+
+
+(* statements with the honest chain given by "verify_chain = Ok" instead of Linked *)
+Theorem forged_block_v bm n i b b' :
+  verify_chain bm n = 0 -> HeightsOK bm n -> n < U64 -> 1 <= i <= n -> aget bm i = Some b ->
+  verify_chain (aset bm i b') n = 0 ->
+  Forgery (siglog bm n) \/
+  (pre (b_hdr b') = pre (b_hdr b) /\ h_sig (b_hdr b') = h_sig (b_hdr b) /\
+   h_proposer (b_hdr b') = h_proposer (b_hdr b) /\ tx_root_ok b' = true).
+Proof. intros Hv. intros. eapply forged_block; eauto. apply verify_chain_iff; [lia|exact Hv]. Qed.
+
+Theorem single_field_mutation_v bm n i b h' :
+  verify_chain bm n = 0 -> HeightsOK bm n -> n < U64 -> 1 <= i <= n -> aget bm i = Some b ->
+  WellSized (b_hdr b) ->
+  (mut1 (b_hdr b) h' \/ exists v, v <> h_sig (b_hdr b) /\ h' = set_sig v (b_hdr b)) ->
+  verify_chain (aset bm i (Bk h' (b_txs b) (b_sigs b))) n = 0 ->
+  Forgery (siglog bm n).
+Proof. intros Hv. intros. eapply single_field_mutation; eauto. apply verify_chain_iff; [lia|exact Hv]. Qed.
+
+Theorem tx_list_mutation_v bm n i b l' :
+  (forall x, length (Hf x) = 32%nat) -> (forall a b, ser_tx a = ser_tx b -> a = b) ->
+  verify_chain bm n = 0 -> 1 <= i <= n -> aget bm i = Some b ->
+  l' <> b_txs b -> length l' = length (b_txs b) ->
+  verify_chain (aset bm i (with_txs l' b)) n = 0 -> Collision.
+Proof. intros H1 H2 Hv. intros. eapply tx_list_mutation; eauto. apply verify_chain_iff; [lia|exact Hv]. Qed.
+
+Theorem genesis_mutation_v bm n g g' :
+  verify_chain bm n = 0 -> 1 <= n -> aget bm 0 = Some g ->
+  pre (b_hdr g') <> pre (b_hdr g) ->
+  verify_chain (aset bm 0 g') n = 0 -> Collision.
+Proof. intros Hv. intros. eapply genesis_mutation; eauto. apply verify_chain_iff; [lia|exact Hv]. Qed.
+
+Lemma built_heights bm m : built bm m -> HeightsOK bm (m_height m).
+Proof. intros Hb. destruct (built_Inv _ _ Hb) as (_ & _ & H). exact H. Qed.
+
 End Proofs.
+
+(* ------------------------------------------------------------------ concrete witnesses (ideal symbolic hash / signature) *)
+Module Wit.
+Definition Hc (x : bytes) : bytes := 1000 :: x.
+Definition serc (t : tx) : bytes := match t with TPut k v => 0 :: k :: N.of_nat (length v) :: v | TDel k => [1; k] end.
+Definition signc (p m : bytes) : bytes := 2000 :: p ++ 2001 :: m.
+Definition sigvc (p m s : bytes) : bool := bytes_eqb s (signc p m).
+Definition regc (p : bytes) : bool := bytes_eqb p [1].
+Definition SRc (_ : store) : bytes := [3000].
+Definition me : bytes := [1].
+(* the flags of the present source: no timestamp rule in append, signature demanded above height 1,
+   genesis tx_root checked, commit locked *)
+Definition fl_now : flags := Fl false false true 1 true.
+Definition fl_racy : flags := Fl false false true 1 false.
+
+Definition s0 : st := init Hc me [] 100.
+Definition commit1 (s : st) (w : N) (ts : N) := commit Hc serc regc sigvc signc SRc fl_now me [] 8 s w ts.
+Definition put1 (s : st) (w k : N) (v : bytes) := fst (add_op s w (TPut k v)).
+Definition verify1 (s : st) := verify Hc serc regc sigvc fl_now s.
+
+(* a 3-block chain built by commits: used as the non-trivial instance of the hypotheses *)
+Definition s3 : st :=
+  let s := begin_ws s0 0 in let s := put1 s 0 1 [7] in let s := fst (commit1 s 0 101) in
+  let s := begin_ws s 1 in let s := put1 (put1 (put1 s 1 2 [8]) 1 3 [9]) 1 4 [10] in let s := fst (commit1 s 1 102) in
+  let s := begin_ws s 2 in let s := put1 s 2 1 [11] in fst (commit1 s 2 103).
+Definition bm3 : blockmap := s_blocks (t_store s3).
+
+Lemma s3_verifies : verify1 s3 = 0 /\ m_height (t_mem s3) = 3.
+Proof. vm_compute. split; reflexivity. Qed.
+
+Lemma s3_heights : HeightsOK bm3 3.
+Proof.
+  intros k b Hk. assert (k = 0 \/ k = 1 \/ k = 2 \/ k = 3) as [-> | [-> | [-> | ->]]] by lia;
+    vm_compute; intros E; injection E as <-; reflexivity.
+Qed.
+
+(* F-C16-rollback *)
+Lemma rollback_stale_checkpoint_refuted :
+  exists s w, verify1 s = 0 /\ snd (rollback s w) = 0 /\ verify1 (fst (rollback s w)) <> 0.
+Proof.
+  exists (let s := begin_ws s0 0 in let s := begin_ws s 1 in let s := put1 s 1 1 [7] in fst (commit1 s 1 101)), 0.
+  vm_compute. repeat split; discriminate.
+Qed.
+
+(* unsigned first block accepted by append, refused by verify *)
+Lemma first_block_unsigned_refuted :
+  exists b s', append_raw Hc serc regc sigvc fl_now s0 b = (s', 0) /\ verify1 s' <> 0.
+Proof.
+  eexists (Bk (Hd 1 (m_tip (t_mem s0)) zeros32 [] [] [] 100 me []) [] []), _.
+  vm_compute. split; [reflexivity|discriminate].
+Qed.
+
+(* timestamp regression accepted by append, refused by verify *)
+Lemma append_timestamp_regression_refuted :
+  exists s b s', verify1 s = 0 /\ append_raw Hc serc regc sigvc fl_now s b = (s', 0) /\ verify1 s' <> 0.
+Proof.
+  pose (s := fst (commit1 (put1 (begin_ws s0 0) 0 1 [7]) 0 101)).
+  pose (h := Hd 2 (m_tip (t_mem s)) zeros32 [] [] [] 50 me []).
+  exists s, (Bk (set_sig (signc me (pre h)) h) [] []). eexists.
+  vm_compute. split; [reflexivity|split; [reflexivity|discriminate]].
+Qed.
+
+(* the header signature of the genesis record and everything on a genesis-only chain is unauthenticated *)
+Lemma genesis_unlinked_refuted :
+  (exists g, aget bm3 0 = Some g /\
+     verify_chain Hc serc regc sigvc fl_now (aset bm3 0 (with_hdr (set_sig [1]) g)) 3 = 0) /\
+  (forall bm, verify_chain Hc serc regc sigvc fl_now bm 0 = 0).
+Proof. split; [eexists; split; [reflexivity|vm_compute; reflexivity]|reflexivity]. Qed.
+
+(* Merkle duplicate tail at chain level: block 2 holds 3 transactions; a 4th (copy of the last) is undetected *)
+Lemma merkle_duplicate_tail_refuted :
+  exists b, aget bm3 2 = Some b /\
+    verify_chain Hc serc regc sigvc fl_now (aset bm3 2 (with_txs (b_txs b ++ [TPut 4 [10]]) b)) 3 = 0.
+Proof. eexists; split; [reflexivity|vm_compute; reflexivity]. Qed.
+
+(* F-C16-race: without the commit lock two commits interleave so that the loser's restore erases the
+   winner's stored block *)
+Definition c0 : cst :=
+  CS (t_store s0) (t_mem s0)
+     [(1, Th [TPut 0 [0]] 0 (t_store s0) None 0); (2, Th [TPut 1 [1]] 0 (t_store s0) None 0)].
+Lemma racy_commits_refuted :
+  exists sched, clock_mono 100 sched /\
+    cverify Hc serc regc sigvc fl_racy (crun Hc serc regc sigvc signc SRc fl_racy me [] c0 sched) <> 0.
+Proof.
+  exists [(1, 101); (2, 101); (1, 102); (2, 102); (1, 103); (2, 103)].
+  split; [cbn; lia|vm_compute; discriminate].
+Qed.
+(* ... and the same schedule is harmless with the lock *)
+Lemma locked_same_schedule :
+  cverify Hc serc regc sigvc fl_now
+    (crun Hc serc regc sigvc signc SRc fl_now me [] c0 [(1, 101); (2, 101); (1, 102); (2, 102); (1, 103); (2, 103)]) = 0.
+Proof. vm_compute. reflexivity. Qed.
+
+(* a 32-byte "hash" exists: the length hypothesis of the Merkle theorem is satisfiable *)
+Definition H32 (x : bytes) : bytes := firstn 32 (x ++ repeat 0 32).
+Lemma H32_len x : length (H32 x) = 32%nat.
+Proof. unfold H32. rewrite firstn_length, app_length, repeat_length. lia. Qed.
+Lemma serc_inj a b : serc a = serc b -> a = b.
+Proof.
+  destruct a as [k v|k], b as [k' v'|k']; cbn; intros E; try discriminate; injection E; intros; subst; reflexivity.
+Qed.
+End Wit.
+
+(* replay is a function of (store image, memory, block list): two replicas agree on everything *)
+Lemma replay_deterministic : forall Hf ser_tx registered sig_valid SR fl sto1 m1 sto2 m2 bs1 bs2,
+  sto1 = sto2 -> m1 = m2 -> bs1 = bs2 ->
+  replay Hf ser_tx registered sig_valid SR fl sto1 m1 bs1 = replay Hf ser_tx registered sig_valid SR fl sto2 m2 bs2.
+Proof. intros; subst; reflexivity. Qed.
